@@ -28,6 +28,21 @@ def obligations(prop, tier):
                         L.append(ob("%s/full/n=%d/utf8=%d/dup=%d" % (tag, n, u, d), "jsontext", fn, [n, 0, u, d]))
                     for n in ([4] if q else [5, 6]):
                         L.append(ob("%s/sigma24/n=%d/utf8=%d/dup=%d" % (tag, n, u, d), "jsontext", fn, [n, 1, u, d]))
+    if prop == "C05":
+        T = [("??", 2, 2, 9), ("???", 2, 2, 2), ("[1,\"?\"]", 3, 3, 2), (" {\"?\":[?]} 3", 4, 3, 2), ("1{\"a?\":{", 4, 2, 3),
+             ("1{\"ab\":{", 64, 2, 2), ("1{\"a?\":?", 8, 2, 2), ("1 {\"a\":{\"?\":tru", 8, 2, 2)]
+        for i, (t, c, k, sr) in enumerate(T):
+            L.append(ob("chunk/t%d/cap=%d/calls=%d/symreads=%d" % (i, c, k, sr), "jsontext", "VerifC05Chunk", [t, c, k, sr], covers=["end"]))
+        F = [("??", 2, 2, 2, 3), ("[1,\"?\"]", 3, 3, 1, 6), (" {\"?\":[?]} 3", 4, 3, 1, 8), ("1{\"a?\":?", 8, 2, 2, 4)]
+        for i, (t, c, k, sr, mf) in enumerate(F):
+            L.append(ob("fault/t%d/cap=%d/calls=%d/symreads=%d/faultAt<=%d" % (i, c, k, sr, mf), "jsontext", "VerifC05Fault", [t, c, k, sr, mf], covers=["end", "fault-seen"]))
+    if prop == "C06":
+        B = (False, True)
+        for d in B:
+            for u in B:
+                for pre, k, sl, rl in ([(0, 2, 1, 2), (0, 3, 1, 1), (1, 2, 1, 3), (2, 2, 1, 2), (3, 2, 1, 2), (4, 2, 1, 3), (5, 2, 1, 2)] if q else
+                                       [(0, 2, 2, 3), (0, 3, 1, 2), (0, 4, 1, 1), (1, 2, 2, 4), (1, 3, 1, 3), (2, 3, 1, 2), (3, 3, 1, 2), (4, 2, 2, 4), (4, 3, 1, 3), (5, 3, 1, 2)]):
+                    L.append(ob("seq/pre=%d/k=%d/str=%d/raw=%d/dup=%d/utf8=%d" % (pre, k, sl, rl, d, u), "jsontext", "VerifC06Seq", [pre, k, sl, rl, d, u], covers=["accepted", "rejected"]))
     if prop == "C10":
         for n in ([1, 2, 5, 19, 20, 21] if q else list(range(1, 23))):
             L.append(ob("parseuint/n=%d" % n, "internal/jsonwire", "VerifC10ParseUint", [n], timeout_ms=60000))
